@@ -28,8 +28,15 @@ XZ = "/root/miniconda/bin/xz"
 
 GEN_QUICK = dict(GenMaxStreams=1, GenMaxBlocks=1, GenMaxChunks=2, GenMaxOff=600000, GenUs="{1, 2097152}", GenCs="{5, 6}",
                  GenRaw="{1}", GenSb="{2}", GenDeclC="{12}", GenDeclU="{1}", GenChecks="{1}")
-GEN_THOROUGH = dict(GenMaxStreams=2, GenMaxBlocks=2, GenMaxChunks=2, GenMaxOff=5000000, GenUs="{1, 65537, 2097152}", GenCs="{5, 6, 65536}",
-                    GenRaw="{1, 65536}", GenSb="{2, 3}", GenDeclC="{12, 65548}", GenDeclU="{1, 65537}", GenChecks="{0, 1, 4, 10}")
+# thorough: three generator configurations (one deep block, two blocks, two streams)
+GEN_THOROUGH = [
+    ("1 block x 3 chunks", dict(GenMaxStreams=1, GenMaxBlocks=1, GenMaxChunks=3, GenMaxOff=8000000, GenUs="{1, 2097152}", GenCs="{5, 6}",
+                                GenRaw="{1}", GenSb="{2, 3}", GenDeclC="{12}", GenDeclU="{1}", GenChecks="{0, 1, 4, 10}")),
+    ("2 blocks x 1 chunk", dict(GenMaxStreams=1, GenMaxBlocks=2, GenMaxChunks=1, GenMaxOff=8000000, GenUs="{1, 65537}", GenCs="{5, 65536}",
+                                GenRaw="{1, 65536}", GenSb="{2}", GenDeclC="{12, 65548}", GenDeclU="{1, 65537}", GenChecks="{0, 1, 4, 10}")),
+    ("2 streams", dict(GenMaxStreams=2, GenMaxBlocks=1, GenMaxChunks=1, GenMaxOff=8000000, GenUs="{1, 2097152}", GenCs="{5, 6}",
+                       GenRaw="{1}", GenSb="{2, 3}", GenDeclC="{12}", GenDeclU="{1}", GenChecks="{1, 4}")),
+]
 
 
 def gen_cfg(c, extra_inv=""):
@@ -271,13 +278,34 @@ def check_totality(ctx, binp):
 
 
 # ------------------------------------------------------------------------ run
+covered = []
+
+
+def action_coverage(ctx):
+    """Per-action distinct-state counts from the last -coverage run (kept by
+    re-running is not needed: vlib keeps only statistics, so the coverage run
+    is repeated here on the smallest configuration and parsed)."""
+    res = ctx.tlc("XzLayoutGen", cfg="gen.cfg", data={"gen.cfg": gen_cfg(GEN_QUICK)}, workers=2, timeout=3000, heap="2g",
+                  label="XzLayoutGen coverage", coverage=True)
+    acts = {}
+    for m in re.finditer(r"<(\w+) line \d+, col \d+ to line \d+, col \d+ of module XzLayout>: (\d+):(\d+)", res["out"]):
+        acts[m.group(1)] = [int(m.group(2)), int(m.group(3))]
+    return [acts]
+
+
 def spec_level(ctx, errors):
     """Design-level model checking of the specifications themselves."""
     try:
         thorough = ctx.tier == "thorough"
-        c = GEN_THOROUGH if thorough else GEN_QUICK
-        ctx.tlc_ok("XzLayoutGen", cfg="gen.cfg", data={"gen.cfg": gen_cfg(c)}, workers=8 if thorough else 4, timeout=3000, heap="4g",
-                   label="XzLayoutGen generator", coverage=thorough)
+        if thorough:
+            for k, (name, c) in enumerate(GEN_THOROUGH):
+                ctx.tlc_ok("XzLayoutGen", cfg="gen.cfg", data={"gen.cfg": gen_cfg(c)}, workers=6, timeout=3000, heap="4g",
+                           label="XzLayoutGen generator (%s)" % name, coverage=(k == 0))
+                if k == 0:
+                    covered[:] = action_coverage(ctx)
+        else:
+            ctx.tlc_ok("XzLayoutGen", cfg="gen.cfg", data={"gen.cfg": gen_cfg(GEN_QUICK)}, workers=4, timeout=3000, heap="4g",
+                       label="XzLayoutGen generator")
         # the generator must be able to finish a file with data (non-vacuity)
         small = dict(GEN_QUICK)
         small.update(GenMaxChunks=1)
@@ -365,7 +393,8 @@ def run(ctx):
         "decode_table_rows": nrows,
         "decode_max_out_over_in": ("%d/%d" % (tst["max_ratio_out"], tst["max_ratio_in"])) if tst else None,
         "expansion_multiple": 42,
-        "generator_states": gen[0]["distinct"] if gen else None,
+        "generator_states": sum(g["distinct"] for g in gen) if gen else None,
+        "generator_action_coverage": covered[0] if covered else None,
         "exhaustive": False,
     }, assumptions=[
         "the walker (harness/cmd/lzmareplay/walker.go) reports the fields of the file faithfully; it was written from xz-file-format.txt and the LZMA2 chunk table, not from litonlylzma",
